@@ -174,7 +174,12 @@ fn resp_block(r: &Packet, opt: CoapOption) -> Option<BlockValue> { r.get_first_o
 
 /// plays an in-order Block2 client against the implementation and returns the requests it sent
 fn play_block2(m: u64, first: &ReqSpec, src: u64, rp: &Reply, reduce_at: Option<(u64, u8)>, tid: u64) -> Vec<Step> {
+    play_block2_on(m, first, src, rp, reduce_at, tid, &[])
+}
+/// the same after the given earlier steps have been run on the server
+fn play_block2_on(m: u64, first: &ReqSpec, src: u64, rp: &Reply, reduce_at: Option<(u64, u8)>, tid: u64, earlier: &[Step]) -> Vec<Step> {
     let mut srv = Server::new(m, Duration::from_secs(3600));
+    for s in earlier { if let Step::Ex(_, d, sr, r0) = s { let _ = catch_unwind(AssertUnwindSafe(|| srv.exchange(&packet_of(d), *sr, r0))); } }
     let mut steps = Vec::new();
     let mut req = first.clone();
     for i in 0..3000u64 {
@@ -190,6 +195,8 @@ fn play_block2(m: u64, first: &ReqSpec, src: u64, rp: &Reply, reduce_at: Option<
         if num > 65535 { break; }
         req.b2 = Some(bv(num, false, szx));
         req.mid = req.mid.wrapping_add(1);
+        // fresh token per request (same length): a reply must carry the token of the request it answers
+        for b in req.token.iter_mut() { *b = b.wrapping_mul(31).wrapping_add(17 + i as u8); }
     }
     steps
 }
@@ -234,6 +241,22 @@ pub fn gen80(tier: &str, r: &mut Rng, emit: &mut dyn FnMut(Vec<u64>)) {
     }
     for blen in [5000usize, 20000] { for pref in [None, Some(6u8)] { one(r, blen, 1152, pref, None, 8, emit); } }
     one(r, 5000, 1152, Some(3), None, 8, emit);
+    // two transfers in a row on the same resource and endpoint (the second without / with early negotiation):
+    // nothing of the first may leak into the second
+    for _ in 0..(if thorough { 3000 } else { 200 }) {
+        let m = r.pick(&[76u64, 140, 300, 1152]);
+        let mut steps = Vec::new();
+        for t in 1..=2u64 {
+            let blen = r.pick(&[0usize, 10, 33, 64, 65, 200, 700]);
+            let rp = Reply { code: 0x45, opts: rand_reply_opts(r), body: r.bytes(blen) };
+            let mut first = ReqSpec::get(&["res", "b"]);
+            first.token = r.bytes_below(9); first.mid = (1000 * t) as u16;
+            first.b2 = if r.chance(1, 2) { None } else { Some(bv(0, false, r.below(7) as u8)) };
+            let reduce = if r.chance(1, 4) { Some((r.below(2), r.below(3) as u8)) } else { None };
+            steps.extend(play_block2_on(m, &first, 7, &rp, reduce, t, &steps));
+        }
+        emit(write_case(m, 0, &steps));
+    }
     // early negotiation x budgets x mid-transfer reduction
     for _ in 0..(if thorough { 20_000 } else { 500 }) {
         let blen = r.pick(&[0usize, 1, 15, 16, 17, 100, 500, 1023, 1024, 1025, 3000]);
